@@ -129,6 +129,13 @@ def map_definition(tifa, function, callee, arguments, named_arguments, location)
     return ImpossibleType()
 
 
+def filter_definition(tifa, function, callee, arguments, named_arguments, location):
+    # filter(function, iterable) keeps the elements of its SECOND argument
+    if len(arguments) >= 2:
+        return arguments[1]
+    return ImpossibleType()
+
+
 def zip_definition(tifa, function, callee, arguments, named_arguments, location):
     tupled_types = TupleType((t.iterate() for t in arguments))
     return GeneratorType(arguments and arguments[0].is_empty,
@@ -191,7 +198,7 @@ BUILTIN_NAMES.update({
         FunctionType('dir', returns=lambda: ListType(False, StrType())),
         FunctionType('divmod', returns=lambda: TupleType([IntType(), IntType()])),
         FunctionType('enumerate', definition=enumerate_definition),
-        FunctionType('filter', definition='identity'),
+        FunctionType('filter', definition=filter_definition),
         str_function('format'),
         FunctionType('getattr', returns=AnyType),
         FunctionType('globals', returns=lambda: DictType([(StrType(), AnyType())])),
@@ -217,10 +224,10 @@ BUILTIN_NAMES.update({
         void_function('print'),
         FunctionType('range', returns=lambda: ListType(False, IntType())),
         str_function('repr'),
-        FunctionType('reversed', definition='identity'),
+        FunctionType('reversed', returns='identity'),
         FunctionType('round', definition=round_definition),
         void_function('setattr'),
-        FunctionType('sorted', definition='identity'),
+        FunctionType('sorted', returns='identity'),
         FunctionType('staticmethod', returns='identity'),
         num_function('sum'),
         FunctionType('super', returns='identity'), # TODO: This is not quite right, should really be parent type
